@@ -5,8 +5,8 @@ BASE_OFF = "cd /repo && go build ./... && go test -vet=off -count=1 -timeout 25m
 claims = {
  # id: (level, text, note, technique, design_ref)
  "C01": ("proof",
-         "No-panic obligations (nil dereference, index, slice bounds, explicit panic unreachable, type assertion, nil map) and loop/recursion variants for every function under contract, generated from go/ssa and discharged by SMT for all inputs; scanner stack discipline (Pop never on empty) is an inductive invariant over all 160 state functions.",
-         "Functions outside the contract set and the schema library are not covered; termination only where a decreases clause exists; see evidence.assumptions and unverified_functions.",
+         "No-panic obligations (nil dereference, index, slice bounds, explicit panic unreachable, type assertion, nil map) and loop/recursion variants for every function under contract, generated from go/ssa and discharged by SMT for all inputs; scanner stack discipline (Pop never on empty) is an inductive invariant over all 160 state functions. Scanner termination: the delegation of one byte between state functions decreases a call rank (function-type measure, checked at every static, hinted and popped-state call), and every iteration of the scan loop of Scanner.Next decreases 100*(bytes left)+rank(step), the two rewinds included.",
+         "Functions outside the contract set and the schema library are not covered; termination only where a decreases clause exists (jerr loops, context walks, trace loops, the scanner); termination of the core's scan loops over Next and of the macro expansion is not machine-checked; see evidence.assumptions and unverified_functions.",
          "contract-based deductive verification: safety VCs from go/ssa discharged by z3/cvc5", "DESIGN.md 4.C01"),
  "C03": ("proof",
          "Partial claim, single-run reformulation (DESIGN 4.C03): (a) frame scan over the SSA of the whole repository: the only ranges over maps are in four named functions, each of which only collects the keys into a slice that is sorted before use (shape checked on the SSA); no goroutine, select, time, math/rand or pointer-to-integer conversion in repository code; (b) package-level state is written only by initialisers and the declared sync.Once closure.",
@@ -21,8 +21,8 @@ claims = {
          "Assumed: strings.Contains/ContainsRune/filepath.Join/Dir/os.Stat/os.ReadFile contracts (deps.spec); filepath.Join(dir, '..') names a directory (file-system fact); the JSIGHT-in-included-file refusal in processKeyword is verified for safety only.",
          "contract-based deductive verification + SMT string lemma (cvc5)", "DESIGN.md 4.C08"),
  "C18": ("proof",
-         "A banned kind yields an error located at the directive and leaves every heap location unchanged, at all four consumers: addDirective, processInclude (before any file access: ghost I/O counter unchanged), addMacro, processPasteDirective.",
-         "unchanged() compares all heap arrays touched by the function on pre-existing objects; the 'option changes nothing else' two-run half is not claimed.",
+         "A banned kind is refused where its keyword is read (setCurrentDirective: root file, included file, macro body whether pasted or not), with the error at that keyword, nothing changed and no file access (defect F28 repaired: the check used to run only when the catalog was built); every directive that is created is of a kind that is not banned; the same conditional contract at the four later consumers addDirective, processInclude (ghost I/O counter unchanged), addMacro, processPasteDirective; the option function gives the core its own set: old set plus exactly the listed kinds, in a map no other core or option can reach; the banned set is read nowhere else (readers scan).",
+         "unchanged() compares all heap arrays touched by the function on pre-existing objects; NewDirectiveType is trusted to be a pure function of the keyword text (dtOf); the 'option changes nothing else' two-run half is replaced by the readers/writers frame scans.",
          "contract-based deductive verification: conditional frame postconditions, VCs from go/ssa discharged by z3/cvc5", "DESIGN.md 4.C18"),
  "C09": ("proof",
          "Partial claim: representation invariant of every ordered collection (order has no duplicates, every ordered key is present, as many keys as entries) preserved by Set/SetToTop with whole-view postconditions; key texts: HTTP interaction ids are injective (lemma, SMT strings); AddTag/AddServer keep the invariant; ToJson/ToJsonIndent return exactly the bytes encoding/json produced (no post-processing). Known finding: JSON-RPC ids are not injective.",
@@ -53,11 +53,11 @@ claims = {
          "Round trip is bounded (labelled so in evidence.coverage.bounded); the scanner/normaliser agreement end-to-end is not claimed.",
          "contract-based deductive verification + bounded exhaustive execution for the round trip", "DESIGN.md 4.C17"),
  "C19": ("proof",
-         "Proof: a declared tag's title is its annotation or, lacking one, its name (AddTag, collectTag, NewTag); a path tag reuses the tag already registered under its name; precedence of explicit Tags over the URL's Tags over the automatic path tag (setters under contract). BOUNDED stand-in (labelled in evidence.coverage.bounded): tagName(pathTagTitle(p)) is injective on first path segments over an 8-symbol alphabet up to length 4 (thorough: 5); later segments do not influence the title.",
+         "Proof: a declared tag's title is its annotation or, lacking one, its name (AddTag, collectTag, NewTag); a path tag reuses the tag already registered under its name; precedence of explicit Tags over the URL's Tags over the automatic path tag (setters under contract). BOUNDED stand-in (labelled in evidence.coverage.bounded): tagName(pathTagTitle(p)) decodes back to the title under the inverse written in the test (the specification of tagName: '@' = the leading '/', '__' = '_', '_XY' = the byte XY), hence is injective, on first path segments over a 10-symbol alphabet up to length 4 (thorough: 5); later segments do not influence the title.",
          "Bounded by alphabet and length for the automatic-name injectivity.",
          "contract-based deductive verification + bounded exhaustive execution for the name injectivity", "DESIGN.md 4.C19"),
  "C14": ("proof",
-         "Scanner invariant (stack, event queue, ghost lexeme typestate) proved inductive over all state functions and Scanner.Next; emitted lexemes have begin <= end+1, end inside the input, events paired; keyword lexemes spell a directive word (spell tables checked per transition); schema/enum body length is the library's (assumed) length.",
+         "Scanner invariant (stack, event queue, ghost lexeme typestate) proved inductive over all state functions and Scanner.Next; emitted lexemes have begin <= end+1, end inside the input, events paired; keyword lexemes spell a directive word (spell tables checked per transition); schema/enum body length is the library's (assumed) length; at the end of input every state either reports an error or leaves no lexeme open (defect F25 repaired), stateParameterStart never runs on the end marker.",
          "Assumes the schema library's Len()/Position() bounds (deps.spec); ghost-state definitions of found/foundAt; strict ordering across lexemes is proved at emission (typestate of found/foundAt), not re-proved for the FIFO queue.",
          "contract-based deductive verification: inductive invariant of the scanner state machine as function-type contract, VCs from go/ssa discharged by z3/cvc5", "DESIGN.md 4.C14"),
  "C05": ("proof",
@@ -65,7 +65,7 @@ claims = {
          "NOT claimed: equality of verdict and catalog of two whole documents under the listed rewritings (comments and blank lines between directives, re-indentation, CRLF, quoting, explicit parentheses) - that relates two complete runs and is outside contracts; the lemmas are necessary conditions for it. Assumed: callees are deterministic functions of their arguments and of the listed receiver fields (the lemma itself for step-function callees; an assumption for helpers).",
          "contract-based deductive verification: two-run (product) VCs of each state function + one-run postconditions, go/ssa, z3/cvc5", "DESIGN.md 4.C05"),
  "C02": ("proof",
-         "Contracts on jerr (line/quote arithmetic, location construction, include-trace append) discharged for all inputs by SMT; wrap-around machine arithmetic modelled.",
+         "Contracts on jerr (line/quote arithmetic against a counting specification with the file's own line-end byte, location construction, include-trace append: innermost first, one entry per stack element) discharged for all inputs by SMT with wrap-around machine arithmetic; every error constructor under contract yields an index inside the file it names; an error built from a directive carries that directive's include chain and is located at its own keyword or in its own body (makeError precondition + callers scan); scanProject attaches the chain on every error path; no directive is pending when an included file is entered. Known finding F7 (include-tracer cache keyed by file only).",
          "Trusted: go/ssa translation, govc VC generator, SMT solvers; assumed contracts listed in evidence.assumptions.",
          "contract-based deductive verification: go/ssa weakest-precondition style VCs discharged by z3/cvc5", "DESIGN.md 4.C02"),
 }
